@@ -34,6 +34,8 @@ type Seam struct {
 	Func string `json:"func,omitempty"`
 	// Optional seams may match no call site (e.g. an alternative API the code might use)
 	Optional bool `json:"optional,omitempty"`
+	// Addr passes the address of the receiver expression: x.M(a) -> To(&x, a)
+	Addr bool `json:"addr,omitempty"`
 }
 
 type HarnessSpec struct {
@@ -181,6 +183,9 @@ func rewriteSeams(path string, src []byte, seams []Seam) ([]byte, []string, erro
 							recv = ta.X
 						}
 						xs := string(src[fset.Position(recv.Pos()).Offset:fset.Position(recv.End()).Offset])
+						if s.Addr {
+							xs = "&" + xs
+						}
 						sep := ", "
 						if len(call.Args) == 0 {
 							sep = ""
